@@ -79,6 +79,18 @@ def strategy_(draw, tier):
                                 'kw': dict({'x': {'leaf': uid}}, **kw), 'edits': []}
     nodes = [mk(fnp, 'uidP'), mk(fnx, 'uidX')]
     slots = draw(st.permutations(['b', 'c', 'd', 'e']))
+    if draw(st.sampled_from(range(3))) == 0:
+      # nested sub-fixtures: P is shared by the inner sub-fixtures L and R (declared in the
+      # enclosing sub-fixture G, handed down as a parameter), X is shared inside L only
+      h = lambda uid, **kw: {'k': 'B', 'bt': 'Config', 'fn': {'kind': 'sym', 'name': 'things:h1'}, 'pos': [],
+                             'kw': dict({'a': {'leaf': uid}}, **kw), 'edits': []}
+      nodes.append(h('uidL', **{slots[0]: 0, slots[1]: 1, slots[2]: 1}))
+      nodes.append(h('uidR', **{slots[0]: 0}))
+      nodes.append(h('uidG', b=2, c=3))
+      nodes.append(h('uidT', b=4))
+      return {'kind': 'config', 'recipe': {'nodes': nodes, 'root': 5}, 'scenario': 'subfix', 'S': [4, 2, 3],
+              'gen': draw(st.sampled_from(['new_codegen', 'auto_config_codegen'])),
+              'subs': ['S'], 'mec': draw(st.sampled_from([None, None, 1, 3])), 'history': False}
     skw = {slots[0]: 0, slots[1]: 1, slots[2]: 1}
     if draw(st.booleans()):
       # an unshared, more complex node of X's callable inside S (extracted by the complexity pass)
@@ -251,7 +263,8 @@ def check(case):
       bs.append(v)
   sub_fixtures = None
   if case.get('scenario') == 'subfix':
-    sub_fixtures = {'sub_fixture_0': objs[case.get('S', 2)]}
+    si = case.get('S', 2)
+    sub_fixtures = {f'sub_fixture_{j}': objs[i] for j, i in enumerate(si if isinstance(si, list) else [si])}
     out.cls('scenario_subfix')
   elif case['subs'] and bs:
     sub_fixtures = {}
@@ -336,8 +349,6 @@ def known_features(gen, root, has_tags, sub_fixtures):
     out.append(gen + ':shared-argfactory')
   if gen == 'auto_config_codegen' and _tagged_argfactory_arg(root):
     out.append('auto_config_codegen:tagged-argfactory-argument')
-  if gen == 'auto_config_codegen' and _tagged_shared_value(root):
-    out.append('auto_config_codegen:tagged-shared-value')
   if any(isinstance(v, (set, frozenset)) and any(isinstance(e, enum.Enum) for e in v) for _, v in C.walk(root)):
     # enum members inside a set are emitted fully qualified without an import
     out.append(gen + ':enum-in-set')
